@@ -24,7 +24,7 @@ def _kwsig(op):
 class C13(Check):
     pid = 'C13'
     timeout = 300.0
-    quick_runs = 640
+    quick_runs = 720
     thorough_budget_s = 1200
     rule = ('one run = 2-4 seeded user workflows (construct model by Python classes or YAML, optional update_var, '
             'get_run_func / get_jacobian_func / run with clear and in_place on or off, later probes of returned '
@@ -54,7 +54,7 @@ class C13(Check):
             pass
 
     def strata(self, tier):
-        s = [('S-clean', 3), ('S-fault', 3), ('S-noclear', 3), ('S-opname', 2), ('S-shared', 3), ('S-file', 1),
+        s = [('S-clean', 3), ('S-fault', 3), ('S-noclear', 3), ('S-opname', 3), ('S-shared', 3), ('S-file', 1),
              ('S-all', 2), ('S-reuse', 2), ('S-jax', 1), ('S-torch', 1), ('S-long-source', 0.25)]
         if tier == 'thorough':
             s.append(('S-fortran', 1))     # f2py builds: several models compiled to extension modules in one process
